@@ -205,6 +205,15 @@ def run(ctx):
             if got != exp:
                 report_violation(ctx, "ranges:parse-time-branch-differs", {"case": project_text(p), "key": key, "count": str(n),
                                                                           "expected_by_spec": exp, "implementation": got})
+        for c, k, exp, sc, sk in d.get("chain", []):
+            for key, tail in (("cc", ""), ("cd", "!")):
+                v = locale_value_at(ns_out, "en", (key,))
+                got = pv_eval(Env(var_fmt=False, vars={"var_count": sc, "var_n": sk}, counts={"var_count": c, "var_n": k}), v) if v else None
+                ctx.count("renamed-count-through-chain")
+                if got != exp + tail:
+                    report_violation(ctx, "ranges:renamed-count-branch-differs", {"case": project_text(p), "key": key, "count": str(c), "n": str(k),
+                                                                                 "expected_by_spec": exp + tail, "implementation": got})
+                    return
     decls = []
     for _ in range(ctx.budget(120, 2500)):
         ty = rng.pick(["i8", "u8", "i8", "u8", "i32", "u16", "i64", "f64", "f64", "f32"])
@@ -260,8 +269,20 @@ def run(ctx):
             key = "c_" + lit.replace("-", "m").replace(".", "_")
             pairs.append((key, f"$t(r, {{\"count\": {lit}}})"))
             refs[key] = (n, exp)
+        # the count renamed by one reference (`rn`), the result used by another key that has a `{{ count }}` of its own (`cc`, and `cd` one hop
+        # further): the branch follows the renamed variable `n`, whatever `count` is
+        pairs.append(("rn", "$t(r, {\"count\": \"{{ n }}\"})"))
+        pairs.append(("cc", "{{ count }} x $t(rn)"))
+        pairs.append(("cd", "$t(cc, {\"z\": 1})!"))
+        chain = []
+        shown_of = lambda n: (lambda lit: lit[:-2] if lit.endswith(".0") else lit)(repr(float(n))) if isf else str(n)
+        usable = [n for n in cands if not isf or ("e" not in repr(float(n)) and Fraction(repr(float(n))) == n)]
+        for _ in range(min(8, len(usable))):
+            c, k = rng.pick(usable), rng.pick(usable)
+            br = next((f"B{bi}" for bi, ms in enumerate(means) if any(m[1](Fraction(k)) for m in ms)), "FB")
+            chain.append((c, k, f"{shown_of(c)} x {br}:{shown_of(k)}", shown_of(c), shown_of(k)))
         decls.append({"default": "en", "locales": ["en"], "all_locales": ["en"], "namespaces": None, "inherits": {},
-                      "files": {(None, "en"): proj.O(pairs)}, "extra_cfg": False, "meta": {}, "decl": {"refs": refs}})
+                      "files": {(None, "en"): proj.O(pairs)}, "extra_cfg": False, "meta": {}, "decl": {"refs": refs, "chain": chain}})
     generic_pipeline_check(ctx, [], decls, decl_oracle, "C04-declarations")
     # where a fallback may stand: alone, in the last branch only — also when it is one of several alternatives of a count list
     fb = []
